@@ -565,6 +565,10 @@ def run(ctx):
     ctx.rule("R-14.2", "order.txt / energy.txt layouts and file names agree between writer and readers", floor=7)
     ctx.rule("R-14.3", "deletion safety (C08 R-8.3)", floor=5)
     ctx.rule("R-14.4", "stored frame references point into the path's own directory; the stored copy is what is registered", floor=6)
+    ctx.rule("R-14.12", "the queue of replaced paths whose files are deleted later (delete_old) is per scheduler instance (shared with C06 R-6.4): a second scheduler in the same process must not delete through entries queued by the first", floor=3)
+    from . import c06 as _c06
+    from .shared import RuleProxy as _RP14
+    ctx.attempt(_c06.r64, _RP14(ctx, "R-14.12", " (entries inherited from another run name `load/<n>/accepted/<file>` relative to the working directory: the next replacement deletes the files of a same-numbered live path)"))
     ctx.attempt(r141, ctx)
     ctx.attempt(r142, ctx)
     ctx.attempt(r143, ctx)
@@ -585,6 +589,8 @@ def run(ctx):
 
 
 VARIANTS = [
+    B("c14-delete-queue-shared-between-instances", REPEX, "    traj_data: dict = {}\n", "    traj_data: dict = {}\n    pn_olds: dict = {}\n", "R-14.12", control=True, also=[(REPEX, "        self.pn_olds = {}\n", "")], why="seeded C14_j"),
+    K("c14-keep-delete-queue-declared-and-rebound", REPEX, "    traj_data: dict = {}\n", "    traj_data: dict = {}\n    pn_olds: dict = {}\n"),
     B("c14-aux-file-registered-under-trajectory-key", FORMATTER, "                        source[fpath] = os.path.join(target_dir, new_fname)", "                        source[source_file] = os.path.join(target_dir, new_fname)", "R-14.11", control=True, why="seeded C14_i"),
     B("c14-energy-row-skipped-for-empty-frame", FORMATTER, "                energy[key] = getattr(phasepoint, key, None)\n            yield self.apply_format(i, energy)", "                energy[key] = getattr(phasepoint, key, None)\n            if all(v is None for v in energy.values()):\n                continue\n            yield self.apply_format(i, energy)", "R-14.10", control=True, why="seeded C14_h"),
     B("c14-destination-from-earlier-frame", FORMATTER, "            source[pos_file] = dest\n        dest = source[pos_file]\n        new_pos.append((dest, idx))", "            source[pos_file] = dest\n        new_pos.append((dest, idx))", "R-14.9", control=True, why="seeded C14_g"),
